@@ -14,7 +14,7 @@ from vlib.vtsched import VTModel, clock_of, enc_abs, enc_rel, escaped, make
 PROPERTY_ID = "C42"
 LEVEL = "fault_enumeration"
 RULE = (
-    "Generated forests (1..4 roots, depth <= 3, <= 3 ops per node) of actions scheduled on CatchScheduler(TestScheduler): "
+    "Generated forests (1..4 roots, 3 levels quick / 4 thorough, <= 3 ops per node) of actions scheduled on CatchScheduler(TestScheduler): "
     "every node is scheduled with schedule / schedule_relative / schedule_absolute / schedule_periodic (roots on the outer "
     "CatchScheduler, children through the scheduler handed to the parent action or - 'outer' - through the outer "
     "CatchScheduler; int/float/timedelta/datetime time arguments); a node's program schedules its children and may raise "
@@ -325,7 +325,7 @@ def checks(tier):
             "trees",
             _run,
             strategy=_cases(2 if tier == "quick" else 3),
-            examples={"quick": 2500, "thorough": 16 * 20000},
+            examples={"quick": 2500, "thorough": 16 * 10000},
             shards={"quick": 4, "thorough": 16},
         ),
     ]
